@@ -51,6 +51,9 @@ def gen_project(rng):
         'hdrdir': rng.random() < 0.6,
         'deepglob': rng.random() < 0.6,
         'dirobj': rng.random() < 0.3,
+        # a second cached search whose filter is a function defined in build.bfg (not
+        # serialisable into .bfg_find_cache) next to the serialisable ones
+        'custfilter': rng.random() < 0.4,
     }
     files = {}
     for i in range(rng.randint(1, 3)):
@@ -63,6 +66,9 @@ def gen_project(rng):
     files['include/sub/b.h'] = '#define B 2\n'
     files['data/x.txt'] = 'x\n'
     files['data/y.dat'] = 'y\n'
+    if feats['custfilter']:
+        files['plugins/p0.c'] = 'int p0;\n'
+        files['plugins/test_p0.c'] = 'int tp0;\n'
     return {'feats': feats, 'files': files, 'bfg': initial_bfg(feats), 'options': None,
             'sub_bfg': "copy_file('sub.out', 'sub.in')\n" if feats['submodule'] else None,
             'toolchain': ("compile_options(['-DTC=1'], 'c')\n" if feats['toolchain'] else None)}
@@ -89,6 +95,14 @@ def initial_bfg(feats, extra_lines=()):
     L.append("default(prog, copies)")
     if feats['dirobj']:
         L.append("d = directory('data', include='*')")
+    if feats.get('custfilter'):
+        L[1:1] = ["def no_tests(path):",
+                  "    if path.basename().startswith('test_'):",
+                  "        return FindResult.exclude",
+                  "    return FindResult.include"]
+        L.append("plugins = find_files('plugins/*.c', filter=no_tests)")
+        L.append("plug = static_library('plug', files=plugins)")
+        L.append("default(plug)")
     if feats['submodule']:
         L.append("submodule('sub')")
     if feats['options']:
@@ -105,13 +119,25 @@ EDIT_KINDS = ['add-matching', 'add-nonmatching', 'remove-matching', 'rename-matc
               'add-dir-matching', 'remove-dir', 'edit-bfg-add-target', 'edit-bfg-comment',
               'touch-bfg', 'touch-source', 'edit-options', 'create-options', 'edit-sub',
               'drop-submodule', 'edit-toolchain', 'add-header', 'remove-header', 'add-data',
-              'add-extra', 'noop']
+              'add-extra', 'noop', 'add-plugin', 'add-plugin-filtered-out', 'remove-plugin',
+              'add-empty-dir', 'fill-empty-dir']
 
 
 def gen_history(rng, project, n):
     """A list of edits; each is materialised (ops on the tree) when applied,
     because validity depends on the current state."""
-    return [rng.choice(EDIT_KINDS) for _ in range(n)]
+    hist = [rng.choice(EDIT_KINDS) for _ in range(n)]
+    feats = project['feats']
+    # directed pairs: features that need a particular (sequence of) edit(s) get it
+    if feats.get('custfilter'):
+        hist[rng.randrange(len(hist))] = 'add-plugin'
+        hist.insert(rng.randrange(len(hist) + 1), rng.choice(['remove-plugin', 'add-plugin',
+                                                               'add-plugin-filtered-out']))
+    if feats['deepglob'] and rng.random() < 0.6:
+        i = rng.randrange(len(hist))
+        hist[i:i + 1] = ['add-empty-dir'] + [rng.choice(EDIT_KINDS) for _ in range(rng.randint(0, 2))] \
+            + ['fill-empty-dir']
+    return hist
 
 
 # --------------------------------------------------------------------------
@@ -315,6 +341,35 @@ class Live:
                 victim = rng.choice(hs)
                 os.remove(os.path.join(self.src, 'include', victim))
                 return kind, 'include/' + victim, False, True
+            return None, '', False, False
+        if kind == 'add-plugin' and feats.get('custfilter'):
+            self.write('plugins/p%d.c' % k, 'int p%d;\n' % k)
+            return kind, 'plugins/p%d.c' % k, True, False
+        if kind == 'add-plugin-filtered-out' and feats.get('custfilter'):
+            self.write('plugins/test_p%d.c' % k, 'int tp%d;\n' % k)
+            return kind, 'plugins/test_p%d.c' % k, False, True
+        if kind == 'remove-plugin' and feats.get('custfilter'):
+            ps = sorted(f for f in os.listdir(os.path.join(self.src, 'plugins'))
+                        if f.startswith('p') and f != 'p0.c')
+            if ps:
+                victim = rng.choice(ps)
+                os.remove(os.path.join(self.src, 'plugins', victim))
+                return kind, 'plugins/' + victim, True, False
+            return None, '', False, False
+        if kind == 'add-empty-dir':
+            os.makedirs(os.path.join(self.src, 'src', 'empty%d' % k))
+            proj.bump(os.path.join(self.src, 'src'), self.bld)
+            self.state.setdefault('empty_dirs', []).append('src/empty%d' % k)
+            return kind, 'src/empty%d/' % k, False, True
+        if kind == 'fill-empty-dir':
+            dirs = [d for d in self.state.get('empty_dirs', [])
+                    if os.path.isdir(os.path.join(self.src, d))]
+            if dirs:
+                d = dirs[-1]
+                self.write('%s/f%d.c' % (d, k), 'int f%d;\n' % k)
+                if feats['nocache']:
+                    self.touch('build.bfg')
+                return kind, '%s/f%d.c' % (d, k), feats['deepglob'], not feats['deepglob']
             return None, '', False, False
         if kind == 'add-data':
             self.write('data/z%d.txt' % k, 'z\n')
